@@ -84,3 +84,81 @@ func c14SeqCompare(c *Ctx) {
 	}
 	c.Check(nSrv+nCl >= 2, "client-seq-modular-compare", "sequence-space comparisons examined", "-", fmt.Sprintf("%d in the sensor's space, %d in the client's", nSrv, nCl), "the matcher found no ordered sequence-number comparison at all (anchor fields renamed?)")
 }
+
+// isCarryFold: v = (x >> 16) + (x & 0xffff)  or  (x >> 16) + uint32(uint16(x)) in either operand order.
+func isCarryFold(v ssa.Value) bool {
+	bo, ok := v.(*ssa.BinOp)
+	if !ok || bo.Op != token.ADD {
+		return false
+	}
+	hi := func(a ssa.Value) (ssa.Value, bool) {
+		s, ok := a.(*ssa.BinOp)
+		if !ok || s.Op != token.SHR {
+			return nil, false
+		}
+		if k, ok := ConstInt(s.Y); !ok || k != 16 {
+			return nil, false
+		}
+		return s.X, true
+	}
+	lo := func(a ssa.Value) (ssa.Value, bool) {
+		if m, ok := a.(*ssa.BinOp); ok && m.Op == token.AND {
+			if k, ok := ConstInt(m.Y); ok && k == 0xffff {
+				return m.X, true
+			}
+			if k, ok := ConstInt(m.X); ok && k == 0xffff {
+				return m.Y, true
+			}
+		}
+		if cv, ok := a.(*ssa.Convert); ok {
+			if cv2, ok := cv.X.(*ssa.Convert); ok {
+				if bt, ok := cv2.Type().Underlying().(*types.Basic); ok && bt.Kind() == types.Uint16 {
+					return cv2.X, true
+				}
+			}
+		}
+		return nil, false
+	}
+	for _, pr := range [][2]ssa.Value{{bo.X, bo.Y}, {bo.Y, bo.X}} {
+		if x, ok := hi(pr[0]); ok {
+			if y, ok := lo(pr[1]); ok && x == y {
+				return true
+			}
+		}
+	}
+	return false
+}
+
+// c14ChecksumFold: a one's-complement sum accumulated in 32 bits needs its carries folded back until none is left: a
+// single `(s>>16)+(s&0xffff)` can itself carry (0x1ffff -> 0x10000). Every checksum routine of the raw listener must
+// fold inside a loop or at least twice; one fold gives a wrong checksum exactly for the sums whose first fold carries
+// (which a peer can steer through sequence numbers and payload). The VALUE of the checksum is not decided.
+func c14ChecksumFold(c *Ctx) {
+	p := c.P
+	n := 0
+	for _, fn := range p.FuncsIn(canaryRel) {
+		folds, inLoop := 0, false
+		var first ssa.Instruction
+		for _, b := range fn.Blocks {
+			for _, in := range b.Instrs {
+				v, ok := in.(ssa.Value)
+				if !ok || !isCarryFold(v) {
+					continue
+				}
+				folds++
+				if first == nil {
+					first = in
+				}
+				if InLoop(b) {
+					inLoop = true
+				}
+			}
+		}
+		if folds == 0 {
+			continue
+		}
+		n++
+		c.Check(inLoop || folds >= 2, "checksum-carry-folded", shortFn(fn), p.InstrPos(first), "carries are folded in a loop (or twice)", fmt.Sprintf("the 32-bit one's-complement sum is folded only once (%d fold, not in a loop): when that fold itself carries the emitted checksum is off by one, so the peer's stack drops the frame", folds))
+	}
+	c.Check(n >= 2, "checksum-carry-folded", "checksum routines found", "-", fmt.Sprint(n), "fewer than two checksum routines (TCP pseudo-header sum, IPv4 header sum) carry a recognisable fold")
+}
